@@ -187,6 +187,52 @@ impl<T: Default + Clone> DimArray<T> {
     }
 }
 
+#[cfg(feature = "verif-hooks")]
+impl Arrays {
+    /// All arrays, sorted by name.
+    pub(crate) fn verif_entries(&self) -> Vec<crate::verif_hooks::ArrayInfo> {
+        let mut entries: Vec<crate::verif_hooks::ArrayInfo> = self
+            .0
+            .iter()
+            .map(|(name, array)| {
+                let (kind, dimensions, cells, non_default) = match array {
+                    ValueArray::String(a) => (
+                        'S',
+                        a.dimensions.clone(),
+                        a.values.len(),
+                        a.values
+                            .iter()
+                            .enumerate()
+                            .filter(|(_, v)| !v.is_empty())
+                            .map(|(i, v)| (i, v.to_string()))
+                            .collect::<Vec<_>>(),
+                    ),
+                    ValueArray::Number(a) => (
+                        'N',
+                        a.dimensions.clone(),
+                        a.values.len(),
+                        a.values
+                            .iter()
+                            .enumerate()
+                            .filter(|(_, v)| v.to_bits() != 0)
+                            .map(|(i, v)| (i, format!("{:?}", v)))
+                            .collect::<Vec<_>>(),
+                    ),
+                };
+                crate::verif_hooks::ArrayInfo {
+                    name: name.to_string(),
+                    kind,
+                    dimensions,
+                    cells,
+                    non_default,
+                }
+            })
+            .collect();
+        entries.sort_by(|a, b| a.name.cmp(&b.name));
+        entries
+    }
+}
+
 #[cfg(test)]
 mod tests {
     use crate::interpreter_error::{InterpreterError, OutOfMemoryError};
